@@ -7,6 +7,7 @@ run-time monitor in `Spec/C18*.lean`).  Every theorem quantifies over ALL inputs
 import AsmjitVerif.Lemmas.C18Hash
 import AsmjitVerif.Lemmas.C18Bits2
 import AsmjitVerif.Lemmas.C18HashMap
+import AsmjitVerif.Lemmas.C18HashSwap
 import AsmjitVerif.Lemmas.C18ListPool
 import AsmjitVerif.Lemmas.C18TreeIns11
 import AsmjitVerif.Lemmas.C18TreeRem22
@@ -387,6 +388,32 @@ theorem hash_refines_map (H : Nat → Nat) (hH : ∀ k, H k < 2 ^ 32) (ops : Lis
     ((allNodes (runModel H (a, {}) ops).2).map pr).Perm (runSpec [] ops) ∧
     ∀ k, (get (runModel H (a, {}) ops).2 k (H k)).map pr = lookup (runSpec [] ops) k :=
   Hash.hash_refines_map H hH ops a hv
+/-- `hash_swap_refines`: `ArenaHashBase::_swap` on the two-object model (`Hash.Raw`: `_data` is an explicit pointer to the
+own embedded bucket, the other object's embedded bucket, or an arena array). For ANY two self-contained tables — empty
+(embedded) or grown, in every combination — after `a._swap(b)` both are self-contained again (neither `_data` points into
+the other object) and they have exchanged their abstract bucket arrays and all scalar members. The driver's value-level
+swap of two `Table`s is this statement; the harness dumps BOTH tables after every swap. -/
+theorem hash_swap_refines (a b : Raw) (h : SelfContained a b) :
+    SelfContained (swapRaw a b).1 (swapRaw a b).2 ∧
+    bucketsOf (swapRaw a b).1 (swapRaw a b).2 (swapRaw a b).1 = bucketsOf a b b ∧
+    bucketsOf (swapRaw a b).1 (swapRaw a b).2 (swapRaw a b).2 = bucketsOf a b a ∧
+    (swapRaw a b).1.size = b.size ∧ (swapRaw a b).2.size = a.size ∧
+    (swapRaw a b).1.count = b.count ∧ (swapRaw a b).2.count = a.count ∧
+    (swapRaw a b).1.grow = b.grow ∧ (swapRaw a b).2.grow = a.grow ∧
+    (swapRaw a b).1.rcp = b.rcp ∧ (swapRaw a b).2.rcp = a.rcp ∧
+    (swapRaw a b).1.shift = b.shift ∧ (swapRaw a b).2.shift = a.shift ∧
+    (swapRaw a b).1.primeIndex = b.primeIndex ∧ (swapRaw a b).2.primeIndex = a.primeIndex :=
+  swapRaw_spec a b h
+/-- WITNESS: with `else if` for the second fix-up (seeded change C18-2) swapping two EMPTY tables leaves `other._data`
+pointing at `this->_embedded` -/
+theorem hash_swap_else_if_witness (a b : Raw) (ha : a.data = .embA) (hb : b.data = .embB) :
+    (swapRawElseIf a b).2.data = .embA ∧ ¬ SelfContained (swapRawElseIf a b).1 (swapRawElseIf a b).2 :=
+  swapRawElseIf_aliases a b ha hb
+-- non-vacuity: an empty table swapped with a table holding a node in its embedded bucket
+example : bucketsOf (swapRaw { data := .embA } { data := .embB, embedded := [{ uid := 1, key := 7, hash := 7 }], size := 1 }).1
+    (swapRaw { data := .embA } { data := .embB, embedded := [{ uid := 1, key := 7, hash := 7 }], size := 1 }).2
+    (swapRaw { data := .embA } { data := .embB, embedded := [{ uid := 1, key := 7, hash := 7 }], size := 1 }).1
+    = [[{ uid := 1, key := 7, hash := 7 }]] := by decide
 end HashMap
 
 /-! ## ArenaPool: LIFO recycling of released blocks only. -/
